@@ -21,7 +21,7 @@ TECHNIQUE = ("schedule enumeration at the sender seam (the only place where the 
              "parks on a future and a driver releases, answers or drops pending requests one at a time following a choice "
              "sequence; DFS enumerates ALL schedules for small operation sets, Hypothesis draws choice sequences for larger ones; "
              "oracle = each operation's outcome equals its outcome when run alone on a fresh client and agent")
-RULE = ("case = 2..6 operations from {get, multiget, getnext, walk, bulkwalk, table, set} on one client or spread over two clients "
+RULE = ("case = 2..6 operations from {get, multiget, getnext, walk, bulkwalk, table, set, a get the agent refuses with an error-status and no bindings} on one client or spread over two clients "
         "of one loop x protocol {v2c, SNMPv3 authPriv / authNoPriv, first use concurrent} x a stepping wall clock (request ids "
         "differ between operations) x schedule = sequence of (pending request, answer | drop) choices with <= 1 (DFS) or <= 2 "
         "dropped datagrams per operation (the sender honours the retries it is handed, as send_udp does); non-trivial = >= 2 "
@@ -48,7 +48,7 @@ def make_db():
     return db
 
 
-OPNAMES = ["get", "multiget", "getnext", "walk", "bulkwalk", "table", "set"]
+OPNAMES = ["get", "multiget", "getnext", "walk", "bulkwalk", "table", "set", "geterr"]
 _opid = contextvars.ContextVar("opid", default=None)
 
 
@@ -69,7 +69,21 @@ async def do_op(client, name, k):
         return sorted((r["0"], sorted((c, vworld.observe(v)) for c, v in r.items() if c != "0")) for r in rows)
     if name == "set":
         return vworld.observe(await client.set(O(PRIV + (k, 0)), vworld.make_value(vber.T_OCTETS, b"by-op-%d" % k)))
+    if name == "geterr":
+        # the agent answers this one with error-status 2, error-index 1 and NO bindings (see _refuse)
+        return vworld.observe(await client.get(O(PRIV + (k, 99, 0))))
     raise ValueError(name)
+
+
+def _refuse(agent, req):
+    """requests for <PRIV>.k.99.0 are refused with noSuchName, error-index 1, and an EMPTY binding list"""
+    pdu = req["pdu"]
+    if pdu["vbs"] and len(pdu["vbs"][0][0]) == len(PRIV) + 3 and pdu["vbs"][0][0][-2:] == (99, 0):
+        version = req["version"]
+        if version == 3:
+            return agent.v3_response(req, agent.users[req["user"]], 2, 1, [])
+        return agent.community_response(version, pdu["rid"], 2, 1, [])
+    return None
 
 
 class Sched:
@@ -100,6 +114,7 @@ def run_schedule(case, choices, drops_per_op):
     db = make_db()
     users = [vworld.agent_user(p) for p in protos if p["v"] == "3"]
     agent = vagent.Agent(db, users=users, request_cap=400)
+    agent.respond_hook = _refuse
     sched = Sched([agent])
     clients = [vworld.Client("192.0.2.1", vworld.creds(p), sender=sched.sender_for(i)) for i, p in enumerate(protos)]
     info = dict(branch=[], taken=[], reordered=False, dropped=0, deadlock=False)
@@ -308,7 +323,7 @@ def dfs_unit(check, stats: Stats, *, groups, label, known_ids=(), budget=4000, d
                             cut_short=not complete, wall_s=round(_t.time() - t0, 2)))
 
 
-FIXED = ["get", "getnext", "walk", "bulkwalk", "set", "multiget"]
+FIXED = ["get", "getnext", "walk", "bulkwalk", "set", "multiget", "geterr"]
 # two users of one engine that share pass-phrases but not the hash (defeats caches keyed without the auth protocol)
 SHARED_SECRET_USERS = [
     {"v": "3", "user": "ops-md5", "algo": "md5", "auth_pw": b"one-shared-passphrase".hex(), "priv_pw": b"one-shared-passphrase".hex(), "priv": "verifstream"},
